@@ -99,10 +99,15 @@ reg("C01",
     "(C13.boxMuller_law), the Gaussian law of the loop momenta (C10.momenta_law: centre -L^-1u, covariance (V/2 lambda) L^-1, normalisation "
     "sqrt(det L)/c^L) the inverse-CDF lemma for an exact quantile function (inverse_cdf_law) and one step of the sector sample (xi_power_law: y = c xi^(1/omega) "
     "has density omega y^(omega-1)/c^omega on (0,c)); together with the telescoping sector probability C04.orderProb_eq these are the "
-    "building blocks of the sector density, whose assembly over E-1 nested steps and the identification with U_tr^(-D/2) V_tr^(-dod) remain cited. Tie to the code: end-to-end correspondence "
+    "building blocks of the sector density; C01Sector.lean assembles them: chain_law (the E-1 nested steps y_k = y_(k-1) xi_k^(1/omega_k) have, as an "
+    "iterated integral over the ordered region, the product of the conditional densities), dens_closed (Abel summation of the exponents), "
+    "dens_tropical (= (prod omega_k) x^(nu-1)/(U_tr^(D/2) V_tr^dod) when omega_k - omega_(k+1) = nu_k - D/2 dL_k - dod dS_k, the table's "
+    "definition of the generalised dod, U_tr/V_tr the products C07.permLoop_trop identifies) and sector_density_times_prob (times the "
+    "sector probability (prod 1/omega_k)/J the omegas cancel: x^(nu-1)/(U_tr^(D/2) V_tr^dod)/I_tr in EVERY sector - Borinsky's sector density as "
+    "a theorem); that U_tr, V_tr are the MAXIMAL monomials remains cited (C07). C13.components_iid: all D L Gaussian numbers iid N(0,1). Tie to the code: end-to-end correspondence "
     "of sample on multi-loop/massive/non-trivial routings; supporting fixed-seed Monte Carlo against closed forms (tadpole, bubble, "
     "two-tadpole product under two routings; mean of jacobian*g = (pi/alpha)^(DL/2) for triangle, sunrise k1+-k2, double triangle, banana).",
-    "Three classical theorems cited; Monte Carlo is a statistical supporting test (6 sigma + 0.5%), not a proof.",
+    "Schwinger parametrisation and the maximal-monomial property cited; the 'Consistent' premise of the sector density (a removal lowers the loop number by 0/1, never gains spanning) is checked on the real table flags in C03; Monte Carlo is a statistical supporting test (6 sigma + 0.5%), not a proof.",
     "Lean 4 reduction theorem (partial) + differential correspondence + closed-form Monte Carlo support",
     "DESIGN.md §3 C01")
 
@@ -190,9 +195,12 @@ reg("C13",
     "from coordinates base+2 floor(n/2) and +1; exactly L vectors of D components; D L + (D L mod 2) reads. alpha:=R - z1^2+z2^2 = "
     "-2 ln a and the polar form; boxMuller_law(_model): the Box-Muller theorem itself (Mathlib measure theory) - for every measurable "
     "f >= 0 the integral of f(boxMuller(a,b)) over the open unit square equals the integral of f against (2 pi)^-1 exp(-(z1^2+z2^2)/2), "
-    "i.e. the two values of one pair are independent standard normals for a uniform pair (pairs use disjoint coordinates). Bit-exact correspondence for all "
+    "i.e. the two values of one pair are independent standard normals for a uniform pair; C13Joint.lean: as measures, map bm (uniform on the square) "
+    "= N(0,1) x N(0,1) (Mathlib gaussianReal), joint_law for n pairs on disjoint coordinates = product measure, map_sel (any injective "
+    "selection of components of independent pairs is iid) and components_iid: the first m <= 2n Gaussian numbers in the model's own "
+    "numbering (gaussianAt_of_pairs) have joint law N(0,1)^m - every D L, odd ones included (last sine dropped). Bit-exact correspondence for all "
     "D=1..6 x L=1..5 incl. a down to 2^-1074; mpmath definition oracle.",
-    "Independence ACROSS pairs follows from disjoint coordinates (product measure), not formalised separately.",
+    "The uniformity/independence of the input coordinates is the hypothesis (the caller's RNG); rounding.",
     "Lean 4 theorems + bit-exact differential correspondence + mpmath oracle",
     "DESIGN.md §3 C13")
 
